@@ -30,14 +30,14 @@ LEVEL = "proof"
 LEVEL_TEXT = ("Kernel-checked theorems over ALL finite annotation graphs (no bound on size) about an executable model of "
               "get_type_graph's breadth-first loop and of graphlib's static_order: C09.build_terminates (the loop finishes "
               "within the explicit bound Graph.fuelBound, under the decidable hypothesis Graph.wf: every cycle of the member "
-              "relation passes through a named non-stdlib type, members of stdlib types are stdlib, unwrap idempotent; "
-              "loop_diverges + loopG_not_wf: the hypothesis is necessary), edges_acyclic (the edges handed to graphlib have no "
+              "relation passes through a named or qualified (ClassVar[C] / Final[C]) non-stdlib type, members of stdlib types are stdlib, unwrap idempotent; "
+              "loop_diverges + loopG_not_wf + qualified_needed (class A: x: ClassVar[A] before 9671f4f): the hypothesis is necessary), edges_acyclic (the edges handed to graphlib have no "
               "cycle, so CycleError is impossible; stdClosed_needed: a cycle at the shape of the isstdlibtype defects repaired by "
               "612940b / f6f9920), alias_root_same_graph (NewType / value-alias root vs the type it stands for: same add calls up "
               "to the root label), leaf_root_single (string-valued alias: one node), and for ANY topological order o of the produced edges (IsTopoOrder, "
               "graphlib's contract; checkTopo_sound: the certificate evaluated on every sequence the model reports is sound): "
-              "order_nodup, root_last, members_precede, ref_iff_flagged_named / ref_flagged (a node is a forward reference iff "
-              "flagged cyclic and its type is named and non-stdlib), flagged_revisit (every flagged node revisits a type that "
+              "order_nodup, root_last, members_precede, ref_iff_flagged_named / ref_flagged (a node is deferred by a forward reference — in `type`, or "
+              "for a qualified class in `unwrapped` only — iff flagged cyclic and its type is cuttable), flagged_revisit (every flagged node revisits a type that "
               "has an unflagged walked node in the sequence), deferred_denotes (every deferred node carries exactly the name "
               "and type id of a member of a later node; uref rule). Model tied to /repo per run by an exact node-sequence "
               "correspondence on annotation graphs EXTRACTED from the real objects with the real helpers, plus an independent "
@@ -60,7 +60,7 @@ RULE = ("programs = (0) per edge kind the two shapes of the fix history (Head ->
         "the same field name; a self-referential class, its field annotation also as root); (a) every adjacency structure (self loops included) over 1-2 synthesised classes and a sample (quick) / all "
         "512 (thorough) over 3, a sample over 4, every DAG (strict upper triangle: sharing) over 3 and over 4 (a sample in quick); "
         "every edge drawn from {Optional[X], X | None, list[X], dict[str, X], "
-        "tuple[X, ...], X itself, NewType of X, TypeAliasType of X, TypeAliasType of list[X], string-valued TypeAliasType of X / "
+        "tuple[X, ...], X itself, ClassVar[X], Final[X], Final[Optional[X]], ClassVar[list[X]] (dataclass / plain classes only), NewType of X, TypeAliasType of X, TypeAliasType of list[X], string-valued TypeAliasType of X / "
         "of list[X]}, field names chosen per target so that equal (name, annotation) pairs recur in different classes, optional "
         "second edge to the same target, class flavours dataclass / NamedTuple / TypedDict / plain, nested qualnames, "
         "same-named classes in two modules; (b) universe.Gen programs with g.ty(depth) annotations. Roots: every class, every "
@@ -79,7 +79,8 @@ ASSUMPTIONS = [
 TRUSTED = ["harness/props/c09.py (program synthesis, graph extraction, oracle)", "lean/TypelibModel/Drv/Graph.lean (driver glue)",
            "hand-written model Model/Graph.lean tied to graph.py by this correspondence"]
 
-EDGE_KINDS = ["optional", "pipe", "none_first", "pipe_none_first", "union_alias", "union_newtype", "list", "dict", "vartuple", "direct", "newtype", "alias", "alias_generic", "aliasstr",
+FIELD_ONLY = ["classvar", "final", "final_optional", "classvar_list"]     # legal at the top of a field annotation only
+EDGE_KINDS = FIELD_ONLY + ["optional", "pipe", "none_first", "pipe_none_first", "union_alias", "union_newtype", "list", "dict", "vartuple", "direct", "newtype", "alias", "alias_generic", "aliasstr",
               "aliasstr_generic"]
 CONTAINERS = ["optional", "pipe", "none_first", "pipe_none_first", "list", "dict", "vartuple", "tuple2", "nested"]
 FLAVOURS = ["dataclass", "dataclass", "dataclass", "namedtuple", "typeddict", "plain"]
@@ -98,8 +99,18 @@ def _alias(prog, kind, target, module):
     return ["wrap", "newtype" if kind == "newtype" else "alias", target, {"name": name}]
 
 
-def edge_type(kind, j, prog, module):
+def edge_type(kind, j, prog, module, flavour="dataclass"):
     target = ["cls", j]
+    if kind in FIELD_ONLY and flavour not in ("dataclass", "plain"):
+        kind = "optional"        # ClassVar / Final are not legal in NamedTuple / TypedDict fields
+    if kind == "classvar":
+        return ["wrap", "classvar", target]
+    if kind == "final":
+        return ["wrap", "final", target]
+    if kind == "final_optional":
+        return ["wrap", "final", ["union", [target, ["none"]], {"sp": "optional"}]]
+    if kind == "classvar_list":
+        return ["wrap", "classvar", ["coll", "list", target, {"sp": "builtin"}]]
     if kind == "optional":
         return ["union", [target, ["none"]], {"sp": "optional"}]
     if kind == "pipe":
@@ -178,11 +189,11 @@ def topo_program(k, adj, rng, tag, style):
             ek = rng.choice(EDGE_KINDS)
             kinds_used.append(ek)
             # the field name depends on the target only: equal (name, annotation) pairs recur across classes
-            fields.append([f"t{j}", edge_type(ek, j, prog, c["module"])])
+            fields.append([f"t{j}", edge_type(ek, j, prog, c["module"], c["kind"])])
             if rng.random() < 0.3:
                 ek2 = rng.choice(EDGE_KINDS)
                 kinds_used.append(ek2)
-                fields.append([f"u{j}", edge_type(ek2, j, prog, c["module"])])
+                fields.append([f"u{j}", edge_type(ek2, j, prog, c["module"], c["kind"])])
         if rng.random() < 0.5 or not fields:
             fields.append(["val", [rng.choice(["int", "str", "date", "decimal"])]])
         if rng.random() < 0.15:
@@ -291,6 +302,31 @@ class _Skip(Exception):
     pass
 
 
+class _Timeout(BaseException):
+    pass
+
+
+LOOP_LIMIT = {"s": 2.0}       # CPU seconds of the child; a walk of these graphs takes milliseconds
+
+
+def with_alarm(fn):
+    """Run fn() under a limit on the CPU time of this process (SIGVTALRM, immune to a loaded machine): a walk that
+    does not terminate becomes an observation instead of a dead child.  A timeout seen in a shared child is
+    confirmed by the parent in a fresh fork with a 5 s limit before it counts (at most 12 of them per run: each one is a failing input)."""
+    import signal
+
+    def handler(sig, frame):
+        raise _Timeout()
+
+    old = signal.signal(signal.SIGVTALRM, handler)
+    signal.setitimer(signal.ITIMER_VIRTUAL, LOOP_LIMIT["s"])
+    try:
+        return fn()
+    finally:
+        signal.setitimer(signal.ITIMER_VIRTUAL, 0)
+        signal.signal(signal.SIGVTALRM, old)
+
+
 def extract(T, cap=400):
     """The abstract annotation graph reachable from T, by the real helpers; ids by == / hash."""
     import inspect
@@ -328,14 +364,16 @@ def extract(T, cap=400):
                 cid = tid(child)
                 child_ids.add(cid)
                 kids.append([var, cid])
-        infos.append({"named": named, "stdlib": bool(inspection.isstdlibtype(u)), "leaf": leaf, "unw": tid(u),
+        infos.append({"named": named, "qualified": bool((not named) and (u is not t) and inspect.isclass(u)), "stdlib": bool(inspection.isstdlibtype(u)), "leaf": leaf, "unw": tid(u),
                       "ucls": bool(inspect.isclass(u)), "kids": kids})
         i += 1
     return infos, ids, child_ids, root
 
 
-def node_view(n, ids, child_ids):
-    """A real TypeNode in the model's alphabet: [type id, unwrapped id, var, cyclic, is-forward-reference]."""
+def node_view(n, ids, child_ids, infos):
+    """A real TypeNode in the model's alphabet: [type id, unwrapped id, var, cyclic, deferred-by-reference, qual].
+    deferred: `type` is a ForwardRef built by graph.py (qual False), or `type` is the annotation itself and only
+    `unwrapped` is such a ForwardRef (qual True; recognised by `unwrapped` not being unwrap(type))."""
     import typing
     from typelib.py import refs
 
@@ -350,9 +388,16 @@ def node_view(n, ids, child_ids):
         try:
             e, eu = refs.evaluate(t), refs.evaluate(n.unwrapped)
         except BaseException as ex:  # noqa: BLE001
-            return ["unresolved", repr(t), f"{type(ex).__name__}: {ex}"[:120], bool(n.cyclic), True]
-        return [ident(e), ident(eu), n.var, bool(n.cyclic), True]
-    return [ident(t), ident(n.unwrapped), n.var, bool(n.cyclic), False]
+            return ["unresolved", repr(t), f"{type(ex).__name__}: {ex}"[:120], bool(n.cyclic), True, False]
+        return [ident(e), ident(eu), n.var, bool(n.cyclic), True, False]
+    ti = ident(t)
+    if type(n.unwrapped) is typing.ForwardRef and ti >= 0 and ident(n.unwrapped) != infos[ti]["unw"]:
+        try:
+            eu = refs.evaluate(n.unwrapped)
+        except BaseException as ex:  # noqa: BLE001
+            return [ti, "unresolved:" + repr(n.unwrapped), n.var, bool(n.cyclic), True, True]
+        return [ti, ident(eu), n.var, bool(n.cyclic), True, True]
+    return [ti, ident(n.unwrapped), n.var, bool(n.cyclic), False, False]
 
 
 # ---- independent oracle (nothing of typelib except refs.evaluate for the deferred_denotes clause) ----
@@ -395,7 +440,8 @@ def o_members(t):
         except Exception:  # noqa: BLE001
             hints = {}
         if dataclasses.is_dataclass(u):
-            ms += [(f.name, hints[f.name]) for f in dataclasses.fields(u) if f.name in hints]
+            names = [f.name for f in dataclasses.fields(u)]
+            ms += [(k, hints[k]) for k in names if k in hints] + [(k, h) for k, h in hints.items() if k not in names]
         elif "__annotations__" in vars(u) or hasattr(u, "_fields") or hasattr(u, "__required_keys__"):
             ms += list(hints.items())
     return [(v, m) for v, m in ms if m is not typing.Any and not isinstance(m, typing.TypeVar)]
@@ -425,10 +471,21 @@ def oracle(seq, T, refs):
         except BaseException as e:  # noqa: BLE001
             den.append(("<unresolvable>", repr(n.type)))
             bad.append(f"deferred node does not evaluate: {n.type!r}: {type(e).__name__}: {e}"[:200])
-    members = [o_members(d) if not (type(n.type) is typing.ForwardRef and n.cyclic) else [] for n, d in zip(seq, den)]
+    def udeferred(n):
+        """`type` is the annotation itself, `unwrapped` a forward reference built by graph.py (not what unwrapping a
+        string-valued alias gives)."""
+        if type(n.type) is typing.ForwardRef or type(n.unwrapped) is not typing.ForwardRef:
+            return False
+        u = o_unwrap(n.type)
+        return not isinstance(u, tuple) and type(u) is not typing.ForwardRef
+
+    udef = [udeferred(n) for n in seq]
+    # a deferred node is not walked: nothing is required before it
+    members = [[] if ((type(n.type) is typing.ForwardRef or ud) and n.cyclic) else o_members(d)
+               for n, d, ud in zip(seq, den, udef)]
     for i, n in enumerate(seq):
         is_ref = type(n.type) is typing.ForwardRef
-        if is_ref and not n.cyclic and n.type != T:
+        if (is_ref or udef[i]) and not n.cyclic and n.type != T:
             bad.append(f"forward-reference node not flagged cyclic: {n!r}")
         # members precede
         for v, m in members[i]:
@@ -447,15 +504,20 @@ def oracle(seq, T, refs):
                         hit = True
             if not hit:
                 bad.append(f"deferred node {n!r} denotes {den[i]!r}, which is no member of any later node")
-            if is_ref:
+            if is_ref or udef[i]:
                 try:
                     eu = refs.evaluate(n.unwrapped)
                 except BaseException as e:  # noqa: BLE001
                     eu = ("<unresolvable>",)
-                want = u if isinstance(u, type) else den[i]
+                want = u if (isinstance(u, type) or udef[i]) else den[i]
                 if eu != want:
                     bad.append(f"deferred node {n!r}: unwrapped evaluates to {eu!r}, expected {want!r}")
     return bad
+
+
+def field_only(T):
+    import typing
+    return typing.get_origin(T) in (typing.ClassVar, typing.Final)
 
 
 def key_of(n):
@@ -492,13 +554,14 @@ def spelling(T, seq, graph, refs, strict):
         if fresh != list(seq):
             bad.append("itertypes (not memoised) differs from static_order")
         done += ["repeat", "itertypes"]
-        nt = typing.NewType("RootNT", T)
-        if not same_upto_root(list(graph.static_order(nt)), nt):
-            bad.append("NewType of the root: sequence differs beyond the root label")
-        al = typing.TypeAliasType("RootAL", T)
-        if not same_upto_root(list(graph.static_order(al)), al):
-            bad.append("value alias of the root: sequence differs beyond the root label")
-        done += ["newtype", "alias"]
+        if not field_only(T):       # ClassVar[...] / Final[...] are legal at the top of a field annotation only
+            nt = typing.NewType("RootNT", T)
+            if not same_upto_root(with_alarm(lambda: list(graph.static_order(nt))), nt):
+                bad.append("NewType of the root: sequence differs beyond the root label")
+            al = typing.TypeAliasType("RootAL", T)
+            if not same_upto_root(with_alarm(lambda: list(graph.static_order(al))), al):
+                bad.append("value alias of the root: sequence differs beyond the root label")
+            done += ["newtype", "alias"]
         if inspect.isclass(T) and "<locals>" not in T.__qualname__ and T.__module__ not in ("builtins",):
             dotted = f"{T.__module__}.{T.__qualname__}"
             if list(graph.static_order(dotted)) != list(seq):
@@ -519,7 +582,9 @@ def one_root(T, extra_models=True, strict=False):
     out = {"root": repr(T)[:160]}
     seq = None
     try:
-        seq = list(graph.static_order(T))
+        seq = with_alarm(lambda: list(graph.static_order(T)))
+    except _Timeout:
+        out["real"] = {"err": "Timeout", "msg": f"static_order did not return within {LOOP_LIMIT['s']} CPU s (the loop does not terminate)"}
     except BaseException as e:  # noqa: BLE001
         out["real"] = {"err": type(e).__name__, "msg": str(e)[:200]}
     try:
@@ -530,7 +595,7 @@ def one_root(T, extra_models=True, strict=False):
     out["tys"], out["rootid"] = infos, root
     if seq is None:
         return out
-    out["real"] = [node_view(n, ids, child_ids) for n in seq]
+    out["real"] = [node_view(n, ids, child_ids, infos) for n in seq]
     out["oracle"] = oracle(seq, T, refs)
     sp_bad, sp_done, order_only = spelling(T, seq, graph, refs, strict)
     out["oracle"] += sp_bad
@@ -538,22 +603,22 @@ def one_root(T, extra_models=True, strict=False):
     if order_only:
         out["order_only"] = order_only
     if isinstance(T, typing.TypeAliasType) and isinstance(T.__value__, str):
-        n = seq[0]
+        n = seq[0]  # noqa
         if not (len(seq) == 1 and n.type is T and type(n.unwrapped) is typing.ForwardRef
                 and n.unwrapped.__forward_arg__ == T.__value__ and not n.cyclic and n.var is None):
             out["oracle"].append(f"string-valued alias is not a single deferred node: {seq!r}"[:300])
         out["stralias"] = True
-    out["flags"] = {"ref": any(v[4] for v in out["real"]), "rewalk": any(v[3] and not v[4] for v in out["real"]),
+    out["flags"] = {"ref": any(v[4] for v in out["real"]), "qual": any(v[5] for v in out["real"]), "rewalk": any(v[3] and not v[4] for v in out["real"]),
                     "n": len(seq)}
     # the same root through a NewType and a value alias: two more graphs for the correspondence
-    if extra_models:
+    if extra_models and not field_only(T):
         out["variants"] = []
         for mk in (lambda: typing.NewType("RootNT", T), lambda: typing.TypeAliasType("RootAL", T)):
             try:
                 V = mk()
-                vseq = list(graph.static_order(V))
+                vseq = with_alarm(lambda: list(graph.static_order(V)))
                 vinfos, vids, vchild, vroot = extract(V)
-                out["variants"].append({"tys": vinfos, "rootid": vroot, "real": [node_view(n, vids, vchild) for n in vseq]})
+                out["variants"].append({"tys": vinfos, "rootid": vroot, "real": [node_view(n, vids, vchild, vinfos) for n in vseq]})
             except BaseException:  # noqa: BLE001
                 pass
     return out
@@ -563,6 +628,8 @@ def run_prog(job):
     import warnings
     warnings.simplefilter("ignore")
     import typelib  # noqa: F401
+    if job.get("cold"):
+        LOOP_LIMIT["s"] = 5.0
     try:
         P = enc.Program(job["prog"])
     except BaseException as e:  # noqa: BLE001
@@ -615,6 +682,11 @@ def compare(res, inp, real, tys, rootid, m, what):
     res.count("agree:" + what)
 
 
+def _timed_out(o):
+    return (isinstance(o.get("real"), dict) and o["real"].get("err") == "Timeout") or \
+        any("_Timeout" in v for v in o.get("oracle", []) or [])
+
+
 def evaluate(jobs, res, cold=False):
     core.import_typelib()
     outs = iso.map_isolated(run_prog, jobs, timeout=120.0)
@@ -642,11 +714,17 @@ def evaluate(jobs, res, cold=False):
                 index.append((ji, ri, vi))
     # order-only differences between spellings under warm caches: once more, alone, in a fresh fork
     if not cold:
-        again = [{"prog": job["prog"], "roots": [r], "family": job.get("family"), "meta": {}, "cold": True}
+        again = [{"prog": job["prog"], "roots": [r], "family": job.get("family"), "meta": {}, "cold": True, "timeout": _timed_out(o)}
                  for job, out in zip(jobs, outs) if isinstance(out, dict) and "roots" in out
-                 for r, o in zip(job["roots"], out["roots"]) if o.get("order_only")]
+                 for r, o in zip(job["roots"], out["roots"]) if o.get("order_only") or _timed_out(o)]
+        slow, fast = [], []
+        for j in again:
+            (slow if j.pop("timeout", False) else fast).append(j)
+        again = fast + slow[:12]
+        if len(slow) > 12:
+            res.count("timeout:not-rechecked (12 others were)", len(slow) - 12)
         if again:
-            res.count("spelling:order-only-under-warm-caches:rechecked-cold", len(again))
+            res.count("rechecked-in-a-fresh-fork (order-only spelling difference under warm caches, or timeout)", len(again))
             sub = Result()
             evaluate(again, sub, cold=True)
             res.failures += sub.failures
@@ -658,6 +736,8 @@ def evaluate(jobs, res, cold=False):
         job = jobs[ji]
         r, o = job["roots"][ri], outs[ji]["roots"][ri]
         inp = {"prog": job["prog"], "root": r, "root_repr": o.get("root")}
+        if not cold and _timed_out(o):
+            continue        # judged by the cold re-run above
         if vi is not None:
             v = o["variants"][vi]
             compare(res, inp, v["real"], v["tys"], v["rootid"], m, "alias-root" if vi else "newtype-root")
@@ -677,11 +757,14 @@ def evaluate(jobs, res, cold=False):
                 res.count("edge:" + ek)
         # ---------------- oracle on the real library (independent of the model)
         if isinstance(real, dict):
-            res.failures.append({"what": f"static_order raised {real.get('err')}", "input": inp, "real": real})
+            what = ("static_order does not terminate" if real.get("err") == "Timeout" else f"static_order raised {real.get('err')}")
+            res.failures.append({"what": what, "input": inp, "real": real})
         else:
             fl = o.get("flags", {})
             if fl.get("ref"):
                 res.count("real:has-forward-reference")
+            if fl.get("qual"):
+                res.count("real:has-deferred-qualified-annotation")
             if fl.get("rewalk"):
                 res.count("real:has-rewalked-node")
             if o.get("stralias"):
